@@ -17,6 +17,7 @@ type CrashParams struct {
 	Random      int   // random subsets beyond
 	TornCuts    []int // header tear positions
 	SuffixEvery int   // run the "fully operational" suffix on every n-th image (plus all none/all images)
+	MaxImages   int   // stop enumerating a history after this many images (0 = no cap); counted as capped
 	Seed        uint64
 }
 
@@ -30,6 +31,7 @@ type CrashStats struct {
 	RecoveredTo map[string]int // "old" / "new" inside commit windows
 	Positions   int
 	TornValid   int // torn headers that happened to be valid (skipped)
+	Capped      int // histories whose enumeration was cut at MaxImages
 }
 
 const hdrMagic = 0xBEA77AEB
@@ -89,6 +91,13 @@ func CheckCrashImages(r *Runner, cp CrashParams, st *CrashStats) (v *Violation) 
 	lastK := -1
 	simdisk.Enumerate(log, r.CreatedIdx, o, rnd, func(spec simdisk.CrashSpec, pend []simdisk.PendOp, img []byte) {
 		if v != nil {
+			return
+		}
+		if cp.MaxImages > 0 && imgNo >= cp.MaxImages {
+			if imgNo == cp.MaxImages {
+				st.Capped++
+				imgNo++
+			}
 			return
 		}
 		if spec.K != lastK {
